@@ -11,6 +11,7 @@ import (
 	"verif/enum"
 	"verif/ref"
 	"verif/run"
+	"verif/spec"
 	"verif/zx"
 )
 
@@ -71,9 +72,9 @@ func init() {
 	run.Register(&run.Def{
 		ID:          "C03",
 		Level:       "exploration",
-		Rule:        "bounded-exhaustive: every batch over a 10-entry per-document cell menu (field a: absent/{x}/{x,y}/{empty term}/present with doc values but no token; field b: absent/{x,z(freq 0)}; b with or without doc values) for N<=3 (quick) / N<=4 (thorough) x doc-value chunk size (LegacyChunkMode) in {1,2,3,1024} x segment in {in-memory, mmap-opened, merged-and-opened} x field list in {[a],[a,b],[b,a,zz]} x EVERY visiting sequence of documents (with repetition) of length <= L (4 quick / 5 thorough) x visit-state discipline in {fresh per call, one state threaded, one state alternated between this segment and a second segment with the same field list but different content}; plus N=7 batches with ascending/descending/zig-zag orders; plus batches of <= 2 documents with a term that contains the byte 0xff (KNOWN FINDING: the doc-value encoding separates terms by 0xff, such a term is returned in pieces - reported under its own signature only when the callbacks equal the reference cut at 0xff). Oracle per call: multiset of callbacks == reference terms of (doc, field), one callback per term; VisitableDocValueFields == dv-indexed fields. Non-trivial = batch with >= 2 documents carrying doc values.",
+		Rule:        "bounded-exhaustive: every batch over a 10-entry per-document cell menu (field a: absent/{x}/{x,y}/{empty term}/present with doc values but no token; field b: absent/{x,z(freq 0)}; b with or without doc values) for N<=3 (quick) / N<=4 (thorough) x doc-value chunk size (LegacyChunkMode) in {1,2,3,1024} x segment in {in-memory, mmap-opened, merged-and-opened} x field list in {[a],[a,b],[b,a,zz]} x EVERY visiting sequence of documents (with repetition) of length <= L (4 quick / 5 thorough) x visit-state discipline in {fresh per call, one state threaded, one state alternated between this segment and a second segment with the same field list but different content, one state alternated between this segment and a segment whose fields are numbered differently and carry other doc-value flags}; plus N=7 batches with ascending/descending/zig-zag orders; plus batches of <= 2 documents with a term that contains the byte 0xff (KNOWN FINDING: the doc-value encoding separates terms by 0xff, such a term is returned in pieces - reported under its own signature only when the callbacks equal the reference cut at 0xff). Oracle per call: multiset of callbacks == reference terms of (doc, field), one callback per term; VisitableDocValueFields == dv-indexed fields. Non-trivial = batch with >= 2 documents carrying doc values.",
 		Assumptions: append([]string{"doc-value terms contain no 0xff byte (bleve's term separator)"}, batchAssumptions...),
-		Bounds:      map[string]string{"quick": "N<=3, sequences of length<=4, 3 segment kinds, 3 state disciplines", "thorough": "N<=4 (L=4 for N=4, L=5 below), same"},
+		Bounds:      map[string]string{"quick": "N<=3, sequences of length<=4, 3 segment kinds, 4 state disciplines", "thorough": "N<=4 (L=4 for N=4, L=5 below), same"},
 		New:         func() interface{} { return &enum.DVCase{} },
 		Gen: func(tier string, emit func(interface{})) {
 			enum.DVBatches(tier, func(c enum.DVCase) { emit(c) })
@@ -125,6 +126,16 @@ func runC03(ci interface{}, a *run.Acc) {
 	}
 	defer other.Close()
 	otherT := dvTarget{"second-segment", other, ref.FromBatch(rb)}
+	// third segment: ANOTHER field numbering and other doc-value flags (a field "0" with doc
+	// values sorts before a; a has no doc values here; b has)
+	ab := alienDVBatch()
+	alien, _, err := zx.Build(ab, 1026)
+	if err != nil {
+		a.Violation("build-error", err.Error()+"\n"+jsonStr(c))
+		return
+	}
+	defer alien.Close()
+	alienT := dvTarget{"segment with another field numbering", alien, ref.FromBatch(ab)}
 
 	ndv := 0
 	for _, m := range exp.DV {
@@ -214,7 +225,21 @@ func runC03(ci interface{}, a *run.Acc) {
 				return false
 			}
 		}
-		a.Eval(3)
+		// discipline 4: state alternated with a segment whose fields are numbered differently
+		st = nil
+		fl4 := append(append([]string{}, fl...), "0")
+		for i, d := range seq {
+			var msg string
+			if st, msg = visitOnce(t, uint64(d), fl4, st); msg != "" {
+				fail(msg, seq, "alternated with another numbering", fl4)
+				return false
+			}
+			if st, msg = visitOnce(alienT, uint64((d+i)%3), fl4, st); msg != "" {
+				fail(msg, seq, "alternated with another numbering (that segment)", fl4)
+				return false
+			}
+		}
+		a.Eval(4)
 		return true
 	}
 	if c.L == 0 {
@@ -249,4 +274,18 @@ func runC03(ci interface{}, a *run.Acc) {
 		}
 	}
 	a.Outcome(fmt.Sprintf("ok/dvdocs=%d", min(ndv, 4)))
+}
+
+// alienDVBatch: three documents whose field list is {_id, 0, a, b}: "0" (doc values) takes
+// the number a has in the case batches, a is indexed WITHOUT doc values, b with.
+func alienDVBatch() spec.Batch {
+	var b spec.Batch
+	for d := 0; d < 3; d++ {
+		b.Docs = append(b.Docs, spec.Doc{ID: fmt.Sprintf("al%d", d), Fields: []spec.Field{
+			{Name: "0", Len: 2, DV: true, Toks: []spec.Tok{{Term: fmt.Sprintf("p%d", d), Freq: 1}, {Term: "q", Freq: 1}}},
+			{Name: "a", Len: 1, Toks: []spec.Tok{{Term: "nodv", Freq: 1}}},
+			{Name: "b", Len: 1, DV: true, Toks: []spec.Tok{{Term: fmt.Sprintf("m%d", d), Freq: 1}}},
+		}})
+	}
+	return b
 }
